@@ -293,7 +293,7 @@ def _replay(prop_id, path, check_case):
         rec = json.load(f)
     try:
         from . import factory
-        factory.new_case()
+        factory.new_case(rec["case"])
         res = check_case(rec["case"])
     except Exception as e:
         traceback.print_exc()
